@@ -22,6 +22,7 @@ package simrt
 
 import (
 	"fmt"
+	"sort"
 	"reflect"
 	"runtime"
 	"sync"
@@ -379,3 +380,14 @@ func (o *Opaque) Signal() { o.p.signal(1) }
 func (o *Opaque) Wait() { o.p.wait() }
 
 func (o *Opaque) Close() { o.p.close() }
+
+// Keys returns the keys of a map of the code under test in sorted order (see /verif/instrument: ranged maps
+// whose iteration order other tasks could observe are visited in key order in the instrumented copy).
+func Keys[K ~string, V any](m map[K]V) []K {
+	ks := make([]K, 0, len(m))
+	for k := range m {
+		ks = append(ks, k)
+	}
+	sort.Slice(ks, func(a, b int) bool { return ks[a] < ks[b] })
+	return ks
+}
